@@ -71,6 +71,10 @@ def retarget(p, a, b, n, G):
             setattr(m, c, v)
 
 
+class DrawsExhausted(Exception):
+    """the scripted random source has no more draws (the model returns FuelE)"""
+
+
 @contextlib.contextmanager
 def scripted_randbelow(draws):
     """secrets.randbelow returns the scripted draws in order; raises IndexError('draws exhausted') afterwards"""
@@ -83,7 +87,7 @@ def scripted_randbelow(draws):
         try:
             v = next(it)
         except StopIteration:
-            raise IndexError("draws exhausted")
+            raise DrawsExhausted("draws exhausted")
         used.append(v)
         return v
     secrets.randbelow = fake
